@@ -39,13 +39,13 @@ pub struct Case {
     pub tag: String,
 }
 
-pub const POINT_ADV: [&str; 10] = ["pass", "rerandomised-representation", "negated", "doubled", "G", "off-curve(y+1)", "point-cancelling-the-peer-key", "point-at-infinity", "affine-as-decoded-from-the-wire", "curve-coordinates-stored-with-Z=2"];
+pub const POINT_ADV: [&str; 11] = ["pass", "rerandomised-representation", "negated", "doubled", "G", "off-curve(y+1)", "point-cancelling-the-peer-key", "point-at-infinity", "affine-as-decoded-from-the-wire", "curve-coordinates-stored-with-Z=2", "off-curve-point-of-order-2-(2,0)"];
 
 /// deliveries that are no curve point at all: the receiving step must refuse them
 fn bad_point(code: u16) -> bool {
-    matches!(code, 5 | 7 | 9)
+    matches!(code, 5 | 7 | 9 | 10)
 }
-pub const HASH_ADV: [&str; 8] = ["pass", "flip-first-bit", "flip-last-bit", "all-zero", "forged-for-zero-shared-point", "two-byte-tag-variant", "other-confirmation-value", "byte-xor-ff"];
+pub const HASH_ADV: [&str; 9] = ["pass", "flip-first-bit", "flip-last-bit", "all-zero", "forged-for-zero-shared-point", "two-byte-tag-variant", "other-confirmation-value", "byte-xor-ff", "forged-by-the-responder-for-a-vanishing-R_B"];
 
 fn adv_point(p: &Point, code: u16, seed: u64, cancel: Option<&String>) -> Point {
     let r = ref_point(p);
@@ -65,6 +65,8 @@ fn adv_point(p: &Point, code: u16, seed: u64, cancel: Option<&String>) -> Point 
             q.z = to_mont(&BigUint::from(2u32));
             q
         }
+        // (2, 0): not on the curve; the doubling formula sends it to O, so [k](2, 0) vanishes for every even k
+        10 => lib_point_raw(&BigUint::from(2u32), &BigUint::from(0u32)),
         0 => *p,
         1 => lib_point(&r, &SplitMix::new(seed, "c15lambda").nonzero_below(&pr.p)),
         2 => lib_point_affine(&pr.curve.neg(&r)),
@@ -83,7 +85,7 @@ fn adv_hash(h: &[u8; 32], code: u16) -> [u8; 32] {
         1 => o[0] ^= 0x80,
         2 => o[31] ^= 0x01,
         3 => o = [0; 32],
-        4 | 5 | 6 => {} // replaced by the caller (needs the transcript)
+        4 | 5 | 6 | 8 => {} // replaced by the caller (needs the transcript)
         7 => o[0] ^= 0xff,
         // 400 + j: several bytes changed so that the differences cancel under a sloppy comparison
         c if c >= 400 => {
@@ -260,6 +262,18 @@ pub fn eval(ctx: &Ctx, case: &Case) {
         let (x2, y2) = sm2::xy_bytes(&ref_point(&rb_pt));
         let inner = refmodels::sm3::sm3_cat(&[&xv, &za, &zb, &x1, &y1, &x2, &y2]);
         sb_del = if adv[2] == 5 { refmodels::sm3::sm3_cat(&[&[0x00, 0x02], &yv, &inner]) } else { b_ref.s_a };
+    }
+    if adv[2] == 8 {
+        // a responder that owns d_B and sent an R_B whose multiple [x-bar_2]R_B vanishes needs no ephemeral secret:
+        // the initiator's U = [t_A](P_B + O) = [d_B](P_A + [x-bar_1]R_A); S_B for that U over the R_B actually delivered
+        let ra_ref_pt = ref_point(&ra_pt);
+        let x1bar = sm2::xbar(&ra_ref_pt.as_ref().unwrap().0);
+        let u = sm2::mul(&db, &sm2::add(&pa_ref, &sm2::mul(&x1bar, &ra_ref_pt)));
+        let (xu, yu) = sm2::xy_bytes(&u);
+        let (x1, y1) = sm2::xy_bytes(&ra_ref_pt);
+        let (x2, y2) = (cand(&from_mont(&rb_del.x)), cand(&from_mont(&rb_del.y)));
+        let inner = refmodels::sm3::sm3_cat(&[&xu, &za, &zb, &x1, &y1, &x2, &y2]);
+        sb_del = refmodels::sm3::sm3_cat(&[&[0x02], &yu, &inner]);
     }
     let sb_tampered = sb_del != sb;
     let r3 = guard(|| alice.exchange_3(&rb_del, sb_del));
@@ -582,6 +596,12 @@ pub fn run(ctx: &Arc<Ctx>) {
         for (ia, ib, dbb) in [(Some("same@example.com".to_string()), Some("same@example.com".to_string()), db.clone()), (None, None, db.clone()), (Some("same@example.com".to_string()), Some("same@example.com".to_string()), da.clone())] {
             cases.push(Case { cfg: Config { da: da.clone(), db: dbb, ida: ia, idb: ib, klen: 16, ra: ra.clone(), rb: rb.clone(), cancel_a: None, cancel_b: None }, adv: vec![0, 0, 0, 0, 0], tag: "honest/same-identity".into() });
         }
+    }
+    // a responder's off-curve R_B of order 2 with the S_B that responder can compute without an ephemeral secret
+    for ci in 0..2usize.min(cfgs.len()) {
+        cases.push(Case { cfg: cfgs[ci * klens.len()].clone(), adv: vec![0, 10, 8], tag: "vanishing-R_B".into() });
+        cases.push(Case { cfg: cfgs[ci * klens.len()].clone(), adv: vec![0, 10, 0], tag: "vanishing-R_B".into() });
+        cases.push(Case { cfg: cfgs[ci * klens.len()].clone(), adv: vec![10], tag: "vanishing-R_A".into() });
     }
     // curve coordinates stored under Z = 2 (an "affine equation first" validity test lets them through), to either party
     for ci in 0..2usize.min(cfgs.len()) {
